@@ -500,6 +500,28 @@ func genC20(g *Gen) {
 			}
 		}
 	}
+	// a variant built from a caller's list that is empty / short but has spare capacity: both sides grow afterwards, in every order
+	for _, how := range []string{"SetAsArray", "SetAsObject", "VariantFromArray", "NewVariant"} {
+		for keep := 0; keep <= 2; keep++ {
+			grow := []Ev{{"op": "setbyindex", "v": 1, "i": keep, "e": "e3"}, {"op": "setlength", "v": 1, "n": keep + 2}, {"op": "setbyindex", "v": 1, "i": keep + 1, "e": "e5"}}
+			call := []Ev{{"op": "listappend", "list": "L1", "e": "e4"}, {"op": "listappend", "list": "L1", "e": "nilptr"}, {"op": "listput", "list": "L1", "i": 0, "e": "e5"}}
+			for _, g1 := range grow {
+				for _, c1 := range call {
+					for order := 0; order < 2; order++ {
+						seg := []Ev{{"op": "new"}, {"op": "listset", "list": "L1", "elems": []any{"e1", "e2", "e3"}}, {"op": "listcut", "list": "L1", "n": keep},
+							{"op": "fromlist", "v": 1, "list": "L1", "how": how}, {"op": "copy", "w": 2, "v": 1, "how": "Clone"}}
+						if order == 0 {
+							seg = append(seg, cloneEv(g1), cloneEv(c1), cloneEv(call[0]), cloneEv(grow[2]))
+						} else {
+							seg = append(seg, cloneEv(c1), cloneEv(g1), cloneEv(call[0]), cloneEv(grow[0]))
+						}
+						seg = append(seg, Ev{"op": "fromlist", "v": 3, "list": "L1", "how": how}, Ev{"op": "listappend", "list": "L1", "e": "e1"}, Ev{"op": "setbyindex", "v": 3, "i": keep + 3, "e": "e2"})
+						g.Run("variants built from lists with spare capacity, both sides growing", seg)
+					}
+				}
+			}
+		}
+	}
 	// random histories over 4 slots and 2 lists
 	n := g.Pick(800, 20000)
 	els := []string{"e1", "e2", "e3", "e4", "e5"}
